@@ -12,7 +12,7 @@ from pyvc import contract, prims
 from pyvc.contract import LoopSpec, Outcome, Spec
 from pyvc.engine import ContractStale, RaiseSig, Unsupported, as_z3_bool, bytes_num
 from pyvc.ground import All
-from pyvc.values import (B, I, NONE, VBool, VBytes, VExc, VFunc, VInt, VNone, VOpaque, VRef, VStr,
+from pyvc.values import (B, I, NONE, Obj, VBool, VBytes, VExc, VFunc, VInt, VNone, VOpaque, VRef, VStr,
                          VTuple, fresh_name)
 
 from . import connmodel as CM
@@ -1362,3 +1362,292 @@ class ResetCache(ConnSpec):
 
 
 SPECS.append(ResetCache)
+
+
+# ======================================================================================
+class CommitBody(ConnSpec):
+    """Connection._commit (the real body; Connection.commit uses the frame contract Commit_):
+    - a HISTORICAL connection (before is not None) refuses with ReadOnlyHistoryError before anything is handed to
+      the storage (C15: "any attempt to commit through it fails");
+    - otherwise every registered object that was explicitly added, or that is changed and is not one of the objects
+      being created in this transaction, is handed (through an ObjectWriter of ITS OWN) to _store_objects with the
+      transaction given - and no other registered object is; an object of another connection stops the commit
+      (InvalidObjectReference).
+    _store_objects is an ASSUMED call-site contract here (it may change any object state and the maps, keeps CONNINV
+    and the registered list, may fail); objects added as a side effect of pickling (_added_during_commit) are
+    outside (A-NO-ADD-DURING-COMMIT): bounded harness."""
+    func = CONN + '._commit'
+    props = ('C11', 'C15')
+    label = 'body'
+    callable_contract = False
+    cases = ('live', 'historical')
+    assumptions = tuple(CM.ASSUMPTIONS) + (
+        'A-STORE-OBJECTS (call site in _commit): _store_objects(writer, transaction) may change object states and the '
+        'cache/_added/_creating/_readCurrent/_modified bookkeeping, keeps CONNINV, ADDED-SERIAL and the list of registered objects, and '
+        'may raise; A-NO-ADD-DURING-COMMIT: pickling adds no objects (_added_during_commit stays empty)',)
+
+    def setup(self, c, case=None):
+        w = CM.mk_conn(c)
+        S = c.obj(w.self).f
+        S['_import'] = NONE
+        if case == 'historical':
+            S['before'] = c.fresh_bytes(8, 'before')
+        c.ghost['cb'] = {'ok': z3.BoolVal(True), 'ev0': 0, 'snap': None, 'txn': c.fresh_opaque('txn_data')}
+        return {'self': w.self, 'transaction': c.ghost['cb']['txn']}
+
+    @staticmethod
+    def added_serial(c, w):
+        """an explicitly added object has never been stored: its serial is still z64 (the code asserts it)"""
+        u = U(c, w)
+        a = c.obj(w.added).f
+        return ('ADDED-SERIAL', All(['oid'], lambda o: z3.Implies(
+            sel(a['dom'], o), sel(u['serial'], sel(a['val'], o)) == 0)))
+
+    def requires(self, c, E):
+        w = world(c)
+        return list(conninv(c, w)) + [self.added_serial(c, w)]
+
+    @staticmethod
+    def must_store(snap, x):
+        o = sel(snap['oid'], x)
+        return z3.Or(sel(snap['added'], o), z3.And(z3.Not(sel(snap['creating'], o)), sel(snap['changed'], x) == 1))
+
+    def snapshot(self, c):
+        w = world(c)
+        u = U(c, w)
+        return {'oid': u['oid'], 'changed': u['changed'], 'added': c.obj(w.added).f['dom'],
+                'creating': c.obj(w.creating).f['dom']}
+
+    def hooks(self, c):
+        hk = ConnSpec.hooks(self, c)
+        spec = self
+
+        def writer(cc, interp, args, kwargs, node):
+            if not (len(args) == 1 and isinstance(args[0], VOpaque) and args[0].tag == 'pobj'):
+                raise Unsupported('ObjectWriter(%r)' % (args,), node)
+            return VOpaque(args[0].t, 'writer')
+
+        def store_objects(cc, args, kwargs, node):
+            g = cc.ghost['cb']
+            wr, txn = (args + [None, None])[1:3]
+            ok = isinstance(wr, VOpaque) and wr.tag == 'writer'
+            cc.oblige('_store_objects.given-a-writer-and-the-transaction-of-this-commit',
+                      ok and txn is g['txn'], node, assume_after=False)
+            if ok:
+                cc.oblige('_store_objects.only-for-an-added-or-changed-object-not-being-created',
+                          spec.must_store(spec.snapshot(cc), wr.t), node, assume_after=False)
+                cc.event('store-graph', wr.t)
+            w = world(cc)
+            havoc_universe(cc, w)
+            for m_ in (w.readCurrent, w.cache, w.added, w.creating):
+                havoc_map(cc, m_)
+            for lbl, f in list(conninv(cc, w)) + [spec.added_serial(cc, w)]:
+                cc.assume(f)
+            if cc.choose([True, True], '_store_objects-outcome') == 1:
+                raise RaiseSig(VExc('ZODB.POSException:ConflictError'))
+            return NONE
+        hk['construct:ZODB.serialize:ObjectWriter'] = writer
+        hk['call:' + CONN + '._store_objects'] = store_objects
+        return hk
+
+    @property
+    def loops(self):
+        spec = self
+
+        def hv(cc, fr):
+            w = world(cc)
+            havoc_universe(cc, w)
+            for m_ in (w.readCurrent, w.cache, w.added, w.creating):
+                havoc_map(cc, m_)
+            g = cc.ghost['cb']
+            g['ok'] = z3.BoolVal(True)
+            g['ev0'] = len(cc.events)
+            g['snap'] = None
+
+        def inv(cc, fr):
+            cur = fr.locals.get('$iter0')
+            if cur is None:
+                raise ContractStale('the loop contract expects to iterate the registered objects: the code has a '
+                                    'different shape')
+            w = world(cc)
+            reg = cc.E.old[w.registered.id]
+            g = cc.ghost['cb']
+            if g['snap'] is None:
+                g['snap'] = spec.snapshot(cc)       # the state the next iteration decides on
+            return [('iterating-the-registered-list', z3.And(cur.arr0 == reg['arr'], cur.len0 == reg['len'])),
+                    ('every-added-or-changed-registered-object-met-was-handed-to-the-storage', g['ok'])] + \
+                list(conninv(cc, w)) + [spec.added_serial(cc, w)]
+
+        def step(cc, fr):
+            g = cc.ghost['cb']
+            x = fr.locals.get('obj')
+            if not (isinstance(x, VOpaque) and x.tag == 'pobj') or g['snap'] is None:
+                raise ContractStale('the loop contract expects the local obj: the code has a different shape')
+            evs = [e for e in cc.events[g['ev0']:] if e[0] == 'store-graph']
+            own = [e for e in evs if e[1].eq(x.t)]
+            foreign = len(own) != len(evs)
+            must = spec.must_store(g['snap'], x.t)
+            g['ok'] = z3.And(z3.BoolVal(not foreign and len(own) <= 1),
+                             z3.BoolVal(True) if own else z3.Not(must))
+            g['snap'] = None
+        none = lambda cc, fr: NONE
+        return {0: LoopSpec(inv=inv, havoc=hv, ghost_step=step, kinds={'oid': none})}
+
+    def modifies(self, c, E):
+        w = world(c)
+        return self.universe_mods(c) | {(m_.id, '*') for m_ in (w.readCurrent, w.cache, w.added, w.creating)} | \
+            {(w.self.id, '_added_during_commit'), (w.self.id, '_import')}
+
+    def outcomes(self, c, E):
+        w = world(c)
+        hist = not isinstance(c.obj(w.self).f['before'], VNone)
+        stored = lambda cc: [e for e in cc.events if e[0] == 'store-graph']
+        if hist:
+            return [Outcome('historical-connection-refuses', 'raise', 'ZODB.POSException:ReadOnlyHistoryError',
+                            post=lambda cc, E, r: [('nothing-handed-to-the-storage', not stored(cc))])]
+        return [Outcome('stored', result=lambda cc, E: NONE, post=lambda cc, E, r: [
+                    ('side-effect-list-dropped', isinstance(cc.obj(w.self).f['_added_during_commit'], VNone))]),
+                Outcome('storing-fails', 'raise', 'ZODB.POSException:ConflictError'),
+                Outcome('foreign-object', 'raise', 'ZODB.POSException:InvalidObjectReference')]
+
+
+VARIANTS.append(CommitBody)
+
+
+# ======================================================================================
+class ConnectionInit(Spec):
+    """Connection.__init__: a connection constructed with a bound reads through the storage's before_instance(bound)
+    - the SAME bound it reports as .before and that _commit tests (C15) - and a live one through new_instance();
+    its ObjectReader resolves references through the connection's own cache (CACHE-SHARED, C14); the transaction
+    bookkeeping starts empty and the connection still has to join (C11)."""
+    func = CONN + '.__init__'
+    props = ('C15', 'C14', 'C11')
+    cases = ('live', 'historical')
+    assumptions = CM.ASSUMPTIONS
+
+    def setup(self, c, case=None):
+        db = c.fresh_opaque('db')
+        me = c.new_obj('inst', CONN, {}, {'name': 'connection'})
+        before = c.fresh_bytes(8, 'before') if case == 'historical' else NONE
+        c.ghost['ci'] = {'me': me, 'db': db, 'before': before, 'made': []}
+        return {'self': me, 'db': db, 'cache_size': c.fresh_int('cache_size'), 'before': before,
+                'cache_size_bytes': c.fresh_int('cache_size_bytes')}
+
+    def hooks(self, c):
+        g = lambda cc: cc.ghost['ci']
+
+        def oattr(cc, v, name, node):
+            if v.tag == 'db':
+                if name == '_mvcc_storage':
+                    return VOpaque(z3.Const('mvcc_storage', Obj), 'mvcc_storage')
+                return VOpaque(z3.Const('db_' + name, Obj), 'db_' + name)
+            return None
+
+        def ometh(cc, v, name, args, kwargs, node):
+            if v.tag == 'mvcc_storage' and name in ('before_instance', 'new_instance'):
+                r = cc.fresh_opaque('storage_instance')
+                cc.event('instance', name, tuple(args), r)
+                return r
+            return None
+
+        def cache(cc, interp, args, kwargs, node):
+            n = cc.fresh_opaque('new_cache')
+            cc.event('new-cache', n, tuple(args))
+            return n
+
+        def reader(cc, interp, args, kwargs, node):
+            r = inst(cc, 'ZODB.serialize:ObjectReader', _conn=args[0], _cache=args[1], _factory=args[2])
+            cc.event('new-reader', r)
+            return r
+        return {'opaque_attr': oattr, 'opaque_method': ometh, 'opaque_is_none': lambda cc, v: False,
+                'prim:persistent.PickleCache': cache, 'construct:ZODB.serialize:ObjectReader': reader,
+                'opaque_truthy': lambda cc, v: True}
+
+    def modifies(self, c, E):
+        return {(c.ghost['ci']['me'].id, '*')}
+
+    def outcomes(self, c, E):
+        g = c.ghost['ci']
+
+        def post(c, E, r):
+            S = c.obj(g['me']).f
+            insts = [e for e in c.events if e[0] == 'instance']
+            caches = [e for e in c.events if e[0] == 'new-cache']
+            st = S.get('_storage')
+            out = [('one-storage-instance', len(insts) == 1 and st is insts[0][3] and S.get('_normal_storage') is st),
+                   ('reports-the-bound-it-was-given', contract.same_value(c, S.get('before'), g['before'])),
+                   ('no-savepoint-storage-and-still-to-join', isinstance(S.get('_savepoint_storage'), VNone) and
+                    isinstance(S.get('_needs_to_join'), VBool) and S['_needs_to_join'].t is not None and
+                    contract.same_value(c, S['_needs_to_join'], VBool(True))),
+                   ('one-cache-belonging-to-this-connection', len(caches) == 1 and S.get('_cache') is caches[0][1] and
+                    isinstance(caches[0][2][0], VRef) and caches[0][2][0].id == g['me'].id)]
+            if insts:
+                if isinstance(g['before'], VNone):
+                    out.append(('live-connection-reads-through-new_instance', insts[0][1] == 'new_instance'))
+                else:
+                    a = insts[0][2]
+                    out.append(('historical-connection-reads-through-before_instance-of-ITS-bound',
+                                insts[0][1] == 'before_instance' and len(a) == 1 and isinstance(a[0], VBytes) and
+                                bytes_num(c, a[0]) == bytes_num(c, g['before'])))
+            rd = S.get('_reader')
+            out.append(('CACHE-SHARED.reader-resolves-references-through-the-connection-cache',
+                        isinstance(rd, VRef) and c.obj(rd).f.get('_cache') is S.get('_cache') and
+                        isinstance(c.obj(rd).f.get('_conn'), VRef) and c.obj(rd).f['_conn'].id == g['me'].id))
+            for nm in ('_registered_objects', '_modified'):
+                v = S.get(nm)
+                out.append(('%s-starts-empty' % nm, isinstance(v, VRef) and c.obj(v).kind == 'list' and
+                            not c.obj(v).meta.get('items')))
+            for nm in ('_added', '_creating', '_readCurrent'):
+                v = S.get(nm)
+                out.append(('%s-starts-empty' % nm, isinstance(v, VRef) and c.obj(v).kind == 'pydict' and
+                            not c.obj(v).meta.get('pairs')))
+            return out
+        return [Outcome('ok', post=post, result=lambda cc, E: NONE)]
+
+
+SPECS.append(ConnectionInit)
+
+
+# ======================================================================================
+class ReadCurrent(ConnSpec):
+    """Connection.readCurrent(ob): the object's oid is recorded with the serial of the state THIS connection holds
+    (so that commit can ask the storage whether that is still the current one: Connection.commit, proved above) -
+    unless the object is new (serial z64: nothing committed to depend on); no other entry changes."""
+    func = CONN + '.readCurrent'
+    props = ('C03',)
+
+    def setup(self, c, case=None):
+        w = CM.mk_conn(c)
+        x = CM.fresh_pobj(c)
+        c.ghost['rcur'] = x
+        return {'self': w.self, 'ob': x}
+
+    def requires(self, c, E):
+        w = world(c)
+        u = U(c, w)
+        x = c.ghost['rcur'].t
+        return list(conninv(c, w)) + [('the-object-belongs-to-this-connection',
+                                       z3.And(sel(u['jar'], x) == 1, sel(u['oid'], x) >= 0))]
+
+    def modifies(self, c, E):
+        w = world(c)
+        return {(w.readCurrent.id, 'dom'), (w.readCurrent.id, 'val')}
+
+    def outcomes(self, c, E):
+        w = world(c)
+        u = U(c, w)
+        x = c.ghost['rcur'].t
+        o, ser = sel(u['oid'], x), sel(u['serial'], x)
+        d0, v0 = c.obj(w.readCurrent).f['dom'], c.obj(w.readCurrent).f['val']
+
+        def post(cc, E, r):
+            f = cc.obj(w.readCurrent).f
+            return [('committed-object.recorded-with-the-serial-this-connection-holds', z3.Implies(
+                        ser != 0, z3.And(sel(f['dom'], o), sel(f['val'], o) == ser))),
+                    ('new-object.nothing-recorded', z3.Implies(ser == 0, z3.And(f['dom'] == d0, f['val'] == v0))),
+                    ('other-entries-untouched', All(['oid'], lambda q: z3.Implies(q != o, z3.And(
+                        sel(f['dom'], q) == sel(d0, q), sel(f['val'], q) == sel(v0, q)))))]
+        return [Outcome('ok', result=lambda cc, E: NONE, post=post)]
+
+
+SPECS.append(ReadCurrent)
